@@ -92,6 +92,9 @@ def run(ctx):
     conformance(ctx, cases, s2, 2, "two-listeners", modes, 8000 if thorough else 700, rnd)
     from checks import c10_physical
     c10_physical.run(ctx)
+    # ---- the repository's own test-suite: every iteration with listeners, trace-validated (SuiteTrace.tla) ------------------
+    from checks import suite
+    suite.run(ctx, "C10", "streams")
     ctx.exhaustive = False
     ctx.assumptions += [
         "pattern listeners are harness-defined Listener subclasses; the real Speaker.listen/_bisect/clear_listeners and the real "
